@@ -13,6 +13,7 @@ import Golib.Proof.C10Copy
 import Golib.Proof.C10C01
 import Golib.Proof.C10Trans
 import Golib.Proof.C10TransRing
+import Golib.Proof.C10TransRingRun
 import Golib.Proof.C10SyncArith
 import Golib.Gen.FactsC10
 
@@ -667,6 +668,36 @@ theorem c10_trans_Ring_Push_fifo (r : GRing) (v : Int) (hi : (toM r).Inv) :
   obtain ⟨m', ok, hp, hinv, hcap, hok, hc⟩ := c10_ring_push (toM r) v hi
   refine ⟨ofM m', ok, ?_, by simpa using hinv, by simpa using hcap, hok, by simpa using hc⟩
   rw [c10_trans_Ring_Push, hp]; rfl
+
+/-- The refinement theorem ON THE REGENERATED CODE: `grun` executes an operation list by calling
+the generated definitions (`Golib/Proof/C10TransRingRun.lean`; `Push`, `PushWithExpand`, `Recap`,
+`Pop`, `Peek`, `Len`, `Cap`, `IsEmpty`, `IsFull` in any order and number).  From every state that
+satisfies the invariant it never panics, never runs out of fuel, prints exactly what the bounded
+FIFO `BQ` prints, and ends in a state whose abstraction is the FIFO's (`c10_ring_refines` carried
+over the ties; no bound on the history or on the capacity). -/
+theorem c10_trans_ring_refines (r : GRing) (hi : (toM r).Inv) (ops : List Op) :
+    ∃ r', grun r ops = .ok (r', ((toM r).abs.run ops).2) ∧ (toM r').Inv ∧
+      (toM r').abs = ((toM r).abs.run ops).1 := by
+  obtain ⟨m', h1, hi', ha⟩ := c10_ring_refines (toM r) hi ops
+  refine ⟨ofM m', ?_, by simpa using hi', by simpa using ha⟩
+  rw [grun_eq, h1]; rfl
+
+/-- … and from the generated constructor: `New(cap)` with `cap > 0` does not panic and every
+history on its result prints what the empty FIFO of capacity `cap` prints. -/
+theorem c10_trans_ring_refines_new (cap : Int) (h : 0 < cap) (ops : List Op) :
+    ∃ r r', Golib.Gen.Trans.C10.New (T := Int) cap = .ok r ∧
+      grun r ops = .ok (r', ((⟨[], cap⟩ : BQ).run ops).2) ∧ (toM r').Inv := by
+  obtain ⟨m, m', hm, hrun, hi'⟩ := c10_ring_refines_new cap h ops
+  refine ⟨ofM m, ofM m', ?_, ?_, by simpa using hi'⟩
+  · rw [c10_trans_New, hm]; rfl
+  · rw [grun_eq, toM_ofM, hrun]; rfl
+
+/-- Non-vacuity: a history on the generated code that fills, overflows, expands and drains. -/
+example :
+    (grun ⟨[0, 0], -1, -1, 2⟩ [.push 1, .push 2, .push 3, .isFull, .pushx 4, .cap, .pop, .len]).bind
+        (fun p => .ok p.2)
+      = .ok ["true", "true", "false", "true", "ok", "4", "1 true", "2"] := by
+  decide +kernel
 
 /-- Non-vacuity: the translated code run on a concrete wrapped ring (cap 3, head 2, tail 0):
 `Push 9` fills cell 1, a second push reports full, `Pop` returns the oldest (`7`) and zeroes its
